@@ -178,4 +178,22 @@ theorem chain_passes (rs : List Res) (n : Nat) (t : Nat) :
 
 /-- non-vacuity: SRT, MicroDVD, DFXP from 1.234567 s: frame 30 = 1.2 s; the loss is 34567 us < 40000 us -/
 example : chain [.ms, .frame, .ms] 1234567 = 1200000 := by decide
+/-- **C08 (the cue timeline stays a timeline).** a sorted sequence of instants — the starts and ends of non-overlapping
+    cues in order — is still sorted after any chain: no cue comes to start before the previous one ends or to end before
+    it starts -/
+theorem chain_keeps_timeline_sorted (rs : List Res) (ts : List Nat) (h : ts.Pairwise (· ≤ ·)) :
+    (ts.map (chain rs)).Pairwise (· ≤ ·) := by
+  rw [List.pairwise_map]
+  exact h.imp (fun hab => chain_monotone rs _ _ hab)
+
+/-- two instants at least a frame (40 ms) apart are never brought together by a chain; a millisecond apart when no
+    MicroDVD hop is on it: distinct cues stay distinct -/
+theorem chain_keeps_apart (rs : List Res) (t u : Nat) :
+    (t + 40000 ≤ u → chain rs t < chain rs u) ∧ (Res.frame ∉ rs → t + 1000 ≤ u → chain rs t < chain rs u) := by
+  rw [chain_coarsest, chain_coarsest]
+  by_cases hf : Res.frame ∈ rs
+  · simp only [hf, if_true, coarsen, not_true_eq_false, false_implies, and_true]; omega
+  · by_cases he : rs = []
+    · subst he; simp; omega
+    · simp only [hf, he, if_false, coarsen, not_false_eq_true, true_implies]; omega
 end PcVerif.Props.C08
